@@ -37,7 +37,8 @@ CLAIMED.update({
             "3 backends, run and graph=True, solve_*/matches",
             "Coq theorems over regenerated tables + snapshot correspondence", "DESIGN.md 3/C09"),
     "C16": ("Order-independence theorem for accumulating updates (and the refutation for set_at) in Props/C16.v; generated calls incl. "
-            "deliberately colliding coordinates executed in fresh processes under 8/50 PYTHONHASHSEED values, digests compared",
+            "deliberately colliding coordinates, tied implicit outputs, short forms and same-type tensor factories executed in fresh processes "
+            "under 8/50 PYTHONHASHSEED values in process-dependent order, digests compared",
             "Coq theorem on the only order-sensitive choice point + cross-process digest comparison", "DESIGN.md 3/C16"),
 })
 CLAIMED.update({
@@ -62,13 +63,16 @@ CLAIMED.update({
             "integers) with theorems: forced values are the values in every solution, reported contradictions have no solution, a "
             "determined outcome is a solution (Props/C02.v). einx's sympy-based solver is not modelled; it is held inside the envelope: "
             "Det => einx reports exactly these shapes/axes, Contra => RankError/AxisSizeError (matches False), free axis => failure, "
-            "anything reported re-checked against all constraints by the extracted solver; lengths up to 2**40",
+            "two verified solutions differing on a reported quantity => failure, anything reported re-checked against all constraints by the "
+            "extracted solver; ellipsis repetition counts through the same solver (rank equations, exhaustive enumeration when undecided); "
+            "einx.id with reversed root items as operation-level probe; lengths up to 2**40",
             "Coq-verified reference solver + envelope correspondence on solve_shapes / solve_axes / matches", "DESIGN.md 3/C02"),
     "C10": ("Theorem (Props/C10.v, any number of threads / programs / schedules): if every state-replacing registry method holds the lock "
             "then the completion order is a serial execution with the same results and final state; the lock table is regenerated from "
             "frontend/backend.py; the unlocked pinned behaviour is refuted by a concrete schedule. A deterministic scheduler (sys.settrace, "
             "pre-emption before every source line of backend.py, lock-aware) replays random schedules of 2-3 real threads and compares "
-            "with all serial interleavings evaluated by the extracted registry model",
+            "with all serial interleavings evaluated by the extracted registry model; part B runs whole einx calls (first-time tracing, "
+            "compilation, cache fill) in 2-3 threads under controlled hand-over points and compares every result with the call executed alone",
             "Coq serialisability proof over an interleaving model + deterministic schedule replay on real threads", "DESIGN.md 3/C10"),
     "C11": ("Specification select (function of argument, with-stack, argument types and the set of available backends) with theorems: "
             "order independence under permutation of the declarations, precedence chain, invalid backends never candidates (Props/C11.v); "
